@@ -12,6 +12,8 @@ Search: the harness evaluates C29 directly on every stored header with an indepe
 Stream `posamsc`: the msc (clique-style) handler against the model Poly.Model.LCPosa.Msc (theorems msc_*, including that
 the walk over LastVoteParentOrEpoch links computes the clique replay over the plain parent chain) and against an independent
 clique reference.
+Stream `bor`: polygon bor REDUCED to one fixed span (no sprint end / start): real BorHandler against Poly.Model.LCPosa.Bor
+(theorems bor_*) and an independent reference (signer in the span, cyclic succession, difficulty N - succession, back-off).
 """
 
 
@@ -30,7 +32,9 @@ def run(ctx):
     ctx.cov["trusted_base"] += ["harness hlc/posa + drv_lc (correspondence check)", "Lean compiler for the driver",
                                 "go-ethereum crypto (secp256k1 sign / recover) used by the harness to seal headers"]
     ctx.cov["not_covered"] = [
-        "polygon bor (spans + snapshots + Heimdall span proofs): not modelled, not driven",
+        "polygon bor beyond ONE fixed span: sprint-end headers (validator bytes checked against the span), span changes through "
+        "Heimdall span proofs (VerifySpan), the validator-set update and proposer rotation at sprint starts, and the proposer-priority "
+        "arithmetic of validator_set.go (the proposer position is an input computed by the package's own code) are neither modelled nor driven",
         "heco EIP-1559 branch (is120 && !needFix): not driven",
         "uint64 / int64 wrap-around of header numbers above 2^63",
     ]
@@ -46,4 +50,8 @@ def run(ctx):
         # header is also judged by the independent clique reference of the harness (plain replay of the parent chain)
         res = ctx.correspondence("posamsc", hbin, ["posamsc"], drv, ["posamsc"])
         ctx.judge(res, theorem_hint="Poly.Props.C29.msc_* (model Poly.Model.LCPosa.Msc no longer matches the msc header-sync handler)")
+        # polygon bor, reduced to one fixed span: model Poly.Model.LCPosa.Bor (signer in the span, succession number, back-off
+        # time, difficulty = N - succession, addHeader); independent reference in the harness
+        res = ctx.correspondence("bor", hbin, ["bor"], drv, ["bor"])
+        ctx.judge(res, theorem_hint="Poly.Props.C29.bor_* (model Poly.Model.LCPosa.Bor no longer matches the bor header-sync handler)")
     ctx.judge_lean()
